@@ -66,6 +66,14 @@ def plan(tier, seed):
         c["cfg"].pop("keepDeps", None)     # here KEEP_DEPENDENCIES is one of the options under test
         c["opts"] = gen_opts(rng)
         cases.append(c)
+    for _ in range(n // 8):
+        c = coregen.gen_case(rng, rng.choice(["full", "yield_ctx", "yield"]), ntops=1)
+        c["cfg"].pop("keepDeps", None)
+        c["opts"] = gen_opts(rng)
+        if rng.random() < 0.7:
+            c["opts"]["COLLECT_PERF_STATS"] = True
+        c["hook"] = "peek"
+        cases.append(c)
     return cases
 
 
@@ -84,10 +92,13 @@ def run_case(case):
     if case["opts"].get("KEEP_DEPENDENCIES"):
         cfg["keepDeps"] = True
     lines = ["(case core20 %d C20 %s %s)" % (case["id"], sx(cc.cfg_sx(cfg)), sx(["tops"] + [[c, b] for c, b in case["tops"]]))]
+    if case.get("hook"):
+        lines = ["(case optpair %d)" % case["id"]]
     lines += [sx(e) for e in tr0] + ["(sep)"] + [sx(e) for e in tr1] + ["(end)"]
     ntasks = sum(1 for e in tr0 if e[0] == "new" and e[2] == "task")
     nflush = sum(1 for e in tr0 if e[0] == "flushB")
     feats = ["profile=" + case.get("profile", "?")] + sorted("opt=" + k for k in case["opts"] if not k.startswith("_"))
+    feats += ["hook=" + case["hook"]] if case.get("hook") else []
     feats.append("clock-max<=%s" % next(b for b in ("1e3", "1e6", "1e9", "2^31", "inf")
                                          if max(case["opts"]["_clock"]) <= {"1e3": 10**3, "1e6": 10**6, "1e9": 10**9, "2^31": 2**31 - 1, "inf": 10**30}[b]))
     nt = None
@@ -119,6 +130,8 @@ def neighbours(case, rng):
 def signature(case, v):
     opts = sorted(k for k in case["opts"] if not k.startswith("_"))
     sig = v["spec"]
+    if case.get("hook"):
+        sig += "/hook-" + case["hook"]
     if len(opts) == 1:
         sig += "/" + opts[0]
     return sig
